@@ -178,7 +178,7 @@ br_aes_x86ni_ctr_run(const br_aes_x86ni_ctr_keys *ctx,
 			for (u = 0; u < len; u ++) {
 				buf[u] ^= tmp[u];
 			}
-			cc += (uint32_t)len >> 4;
+			cc += (uint32_t)((len + 15) >> 4);
 			break;
 		}
 	}
